@@ -2,6 +2,7 @@ package props
 
 import (
 	"bytes"
+	"errors"
 	"fmt"
 	"io"
 	"net"
@@ -504,6 +505,16 @@ func genReq(t *rapid.T) c20Req {
 	return r
 }
 
+// timeoutIsHarness: the client's time limit is there to keep a wedged run from hanging; on a
+// machine that is merely too busy it says nothing about the handler.
+func timeoutIsHarness(err error) string {
+	var ne net.Error
+	if errors.As(err, &ne) && ne.Timeout() {
+		return "HARNESS: time limit hit (inconclusive): "
+	}
+	return ""
+}
+
 func c20Oracle(c c20Case) error {
 	w := newWorkload(3)
 	defer w.shutdown()
@@ -551,11 +562,15 @@ func c20Oracle(c c20Case) error {
 				req, _ := http.NewRequest(r.Method, srv.URL+"/debug?"+r.query(), nil)
 				resp, err := client.Do(req)
 				if err != nil {
-					errs <- fmt.Errorf("request %d: %v", i, err)
+					errs <- fmt.Errorf("%srequest %d: %v", timeoutIsHarness(err), i, err)
 					return
 				}
-				body, _ := io.ReadAll(resp.Body)
+				body, rerr := io.ReadAll(resp.Body)
 				resp.Body.Close()
+				if rerr != nil {
+					errs <- fmt.Errorf("%srequest %d: reading the response: %v", timeoutIsHarness(rerr), i, rerr)
+					return
+				}
 				// every goroutine that existed around the request, plus the server's own
 				// Upper bound: the largest count sampled, plus every goroutine the churn can have
 				// alive at one instant (the sampler may miss a burst), plus the server's own.
@@ -635,10 +650,13 @@ func c20Big(extra int) error {
 	for _, maxmem := range []int{size + 300001, size*3/2 + 7, 2*size + 1, 64 << 20} {
 		resp, err := client.Get(fmt.Sprintf("%s/debug?augment=0&maxmem=%d", srv.URL, maxmem))
 		if err != nil {
-			return fmt.Errorf("maxmem=%d: %v", maxmem, err)
+			return fmt.Errorf("%smaxmem=%d: %v", timeoutIsHarness(err), maxmem, err)
 		}
-		body, _ := io.ReadAll(resp.Body)
+		body, rerr := io.ReadAll(resp.Body)
 		resp.Body.Close()
+		if rerr != nil {
+			return fmt.Errorf("%smaxmem=%d: reading the response: %v", timeoutIsHarness(rerr), maxmem, rerr)
+		}
 		if resp.StatusCode != 200 {
 			return fmt.Errorf("the dump is %d bytes and maxmem=%d is sufficient, yet the handler answered %d: %q", size, maxmem, resp.StatusCode, quoteShort(body))
 		}
@@ -658,10 +676,13 @@ func c20Big(extra int) error {
 	for _, maxmem := range []int{1, 1 << 20, size - 1000} {
 		resp, err := client.Get(fmt.Sprintf("%s/debug?augment=0&maxmem=%d", srv.URL, maxmem))
 		if err != nil {
-			return fmt.Errorf("maxmem=%d (dump %d bytes): %v", maxmem, size, err)
+			return fmt.Errorf("%smaxmem=%d (dump %d bytes): %v", timeoutIsHarness(err), maxmem, size, err)
 		}
-		body, _ := io.ReadAll(resp.Body)
+		body, rerr := io.ReadAll(resp.Body)
 		resp.Body.Close()
+		if rerr != nil {
+			return fmt.Errorf("%smaxmem=%d: reading the response: %v", timeoutIsHarness(rerr), maxmem, rerr)
+		}
 		switch resp.StatusCode {
 		case 500:
 		case 200:
@@ -700,6 +721,7 @@ func TestC20(t *testing.T) {
 	if cfg.Shard == 0 {
 		extra := 6000
 		if err := guard(func() error { return c20Big(extra) }); err != nil {
+			inconclusiveIfHarness("C20/big", err)
 			statsFor("C20").markFailed()
 			p := saveReplay("C20", "C20/big", map[string]int{"extra": extra}, err)
 			t.Fatalf("property C20 violated (C20/big): %v\nreplay=%s", err, p)
